@@ -143,6 +143,24 @@ TooBigForInt(s) ==
 Value6(s)   == ValueScaled(s, 6)     \* value * 10^6  (fixed-point grid used for doubles)
 IntValue(s) == ValueScaled(s, 0)     \* exact integer value
 
+\* ---------------------------------------------------------------- decimal identity
+\* Two number strings denote the same decimal iff they have the same canonical form: sign, significant
+\* digits without leading / trailing zeros, and the power of ten e with value = 0.d1d2... * 10^e.  This
+\* compares values of any magnitude exactly without computing them (no 32-bit limit on the mantissa).
+RECURSIVE StripTrailingZeros(_)
+StripTrailingZeros(ds) == IF ds # <<>> /\ ds[Len(ds)] = 0 THEN StripTrailingZeros(SubSeq(ds, 1, Len(ds) - 1)) ELSE ds
+CanonDec(s) ==
+  LET p    == Parts(s)
+      md   == p.ip \o p.fp
+      lead == Len(md) - Len(StripZeros(md))
+      ds   == StripTrailingZeros(StripZeros(md))
+      xd   == StripZeros(p.ed)
+      E    == IF p.esign = MINUS THEN -NumOf(xd) ELSE NumOf(xd) IN
+  IF ds = <<>> THEN [neg |-> FALSE, ds |-> <<>>, e |-> 0]
+  ELSE [neg |-> p.sign = MINUS, ds |-> ds, e |-> Len(p.ip) - lead + E]
+SameDecimal(a, b) == Len(StripZeros(Parts(a).ed)) <= 8 /\ Len(StripZeros(Parts(b).ed)) <= 8 /\ CanonDec(a) = CanonDec(b)
+SigDigits(s) == Len(CanonDec(s).ds)
+
 \* ---------------------------------------------------------------- formatting
 \* decimal rendering of an integer (what "formatted with sufficient precision"
 \* means for ints): optional '-', digits without leading zeros
@@ -181,6 +199,9 @@ ValueLemma ==
   /\ IntValue(<<0, SCI, 9, 9>>) = 0
   /\ TooBigForInt(<<1, 8, 4, 4, 6, 7, 4, 4, 0, 7, 3, SCI, 1>>) /\ TooBigForInt(<<1, SCI, 1, 0>>) /\ TooBigForInt(<<MINUS, 3, SCI, 1, 2, 3>>)
   /\ ~TooBigForInt(<<2, 1, 4, 7, 4, 8, 3, 6, 4, 8>>) /\ ~TooBigForInt(<<0, SCI, 9, 9>>) /\ ~TooBigForInt(<<0, 0, 0, 0, 0, 0, 0, 0, 0, 0, 0, 7>>)
+  /\ SameDecimal(<<1, DEC, 5, 0>>, <<1, 5, SCI, MINUS, 1>>) /\ SameDecimal(<<0, DEC, 0, 0, 1, 2>>, <<1, DEC, 2, SCI, MINUS, 3>>)
+  /\ SameDecimal(<<1, 2, 0, 0>>, <<1, DEC, 2, SCI, PLUS, 0, 3>>) /\ SameDecimal(<<MINUS, 0>>, <<0, DEC, 0>>)
+  /\ ~SameDecimal(<<1, 2>>, <<1, DEC, 2>>) /\ ~SameDecimal(<<1>>, <<MINUS, 1>>) /\ SigDigits(<<0, DEC, 0, 1, 0, 5, 0>>) = 3
   /\ Value6(<<DEC, 5>>) = 500000
   /\ Value6(<<1, DEC>>) = 1000000
 =============================================================================
